@@ -86,7 +86,7 @@ SPECIAL_STRINGS = [
 
 
 def string_constants(f):
-    return set(n.constant_value() for n in tocoq.topo([f]) if n.is_string_constant())
+    return set(n.constant_value() for n in tocoq.topo([f]) if n.node_type() == op.STR_CONSTANT)
 
 
 def string_formulas(env):
